@@ -142,8 +142,10 @@ PROPS.update({
              'TextTable.text_repr computes column widths that every cell fits (two nested loops over a dict whose keys are shown to stay 0..n-1 in insertion order) and returns one line per row, every line of the same visible width. '
              'The usage table (contracts/usage.py): ResourceUsageReport.__repr__ is proved to hand text_repr a table of one header line plus one line per day d = first, first + 1 day, ... up to the last reservation (n lines with first + (n-1) days <= last < first + n days), '
              'every line with the date cell plus one cell per resource; the builders TextTable.new_row / new_cell and _TextTableRow.add_cell are proved on the same model (rows and cells as heap objects). '
-             'Level `other`: _Repr (rows = depth-first listing, indentation, link cells) and what the cells of the usage table say are covered by the bounded stand-in only.',
-             ['_Repr.repr / __print_task_subtree / __get_field_value', 'cell texts of ResourceUsageReport.__repr__ (date format, one decimal, colours)'],
+             'The sheet builder (contracts/sheetrows.py): _Repr.__print_task_subtree (recursion by contract, three loops) and _Repr.repr are proved to hand text_repr one header line plus one line per task shown - 1 + len(dfs(task)) lines for each given task with children on '
+             '(dfs = the depth-first listing proved for Task.all_children), one line each with children off - every line with exactly one cell per field. '
+             'Level `other`: what the cells say (indentation of the name, link cells with the external mark, __get_field_value), the order of the lines, and the cell texts of the usage table are covered by the bounded stand-in only.',
+             ['_Repr.__get_field_value / __get_linked_task_id (cell texts), order and indentation of the lines', 'cell texts of ResourceUsageReport.__repr__ (date format, one decimal, colours)'],
              ['abstract text theory T3: additive len/vis equations for str concatenation and repetition', 'pre-condition: bg_color is None at every call (true of all call sites in the repository)'], design_ref='8/C20'),
     'C13': P('other', 'contract-based deductive verification of the field-level inverse pairs: the five cell parsers of csv_io.py are proved against their specification, and for every default column the cell '
              'expression of write_csv (taken from the real AST) rendered by the csv writer and read back by the parser specification is proved equivalent to the field (None ~ empty text); the TaskRaw fields built by '
